@@ -708,6 +708,9 @@ class W3PostingsWriter(base.PostingsWriter):
 
         self._ids.append(id_)
         self._weights.append(weight)
+        # Track the weight as stored (float32), so that the block's maximum
+        # really is an upper bound of the weights a reader gets back
+        weight = self._weights[-1]
 
         if weight > self._maxweight:
             self._maxweight = weight
